@@ -219,6 +219,11 @@ thread_local! {
     static FOREIGN_SIGNAL: Cell<Option<Signal<i64>>> = const { Cell::new(None) };
 }
 
+thread_local! {
+    /// counts the top-level writes of a scenario (every second one is issued from inside the foreign root)
+    static TOPSET: std::cell::Cell<u32> = const { std::cell::Cell::new(0) };
+}
+
 fn via_foreign() -> Option<RootHandle> {
     FOREIGN.with(|f| f.get())
 }
@@ -732,6 +737,7 @@ fn run_scenario(line: &str, out: &mut impl Write) {
             }
         });
     });
+    TOPSET.with(|c| c.set(0));
     FOREIGN.with(|f| f.set(if via { Some(foreign) } else { None }));
     let root = create_root(|| {
         let h = use_global_scope();
@@ -745,6 +751,9 @@ fn run_scenario(line: &str, out: &mut impl Write) {
         let r = panic::catch_unwind(AssertUnwindSafe(|| match s {
             Stmt::Dispose(_) => exec1(&env, s),
             Stmt::RunIn(..) => foreign.run_in(|| exec1(&env, s)),
+            // a signal may be written from anywhere as well: every other top-level write is made by code that runs in the foreign
+            // root (an event handler of another app) -- what the write re-runs and creates belongs to the signal's root all the same
+            Stmt::Set(..) if { TOPSET.with(|c| { c.set(c.get() + 1); c.get() % 2 == 0 }) } => foreign.run_in(|| exec1(&env, s)),
             _ => root.run_in(|| exec1(&env, s)),
         }));
         lines.extend(LOG.with(|l| std::mem::take(&mut *l.borrow_mut())));
